@@ -162,6 +162,10 @@ def run_replay_shard(binp, config, cases, out, shard, nshards, nvecs, timeout=18
             cid = int(last)
             crashes.append({"case": cid, "rc": r.returncode, "out": r.stdout[-500:]})
             skip.append(cid)
+            if r.returncode == -26:
+                # CPU watchdog: the code under test did not terminate in this case.  Every further hang costs the full watchdog
+                # time, so the rest of this shard is given up (the check fails anyway)
+                return {"file": out, "nodes": 0, "nondet": [], "crashes": crashes, "log": "", "fault_runs": 0, "aborted": True}
             continue
         raise ToolError("harness failed rc=%s: %s" % (r.returncode, r.stdout[-2000:]))
     # the code under test keeps killing the replay process: report what was seen, give up on the rest of this shard
